@@ -31,7 +31,7 @@ import (
 func main() {
 	mon.Main(&mon.Spec{
 		ID: "C11",
-		Rule: "each case = a sequence of 1..6 exchanges over one keep-alive client connection to a scripted peer: request = method x URL (path/query alphabet) x header list x body mode (bytes, stream of known/unknown length, LimitedReader, urlencoded form, multipart with fields and files); response = fixed length, chunked with trailers, read-until-close, bodiless status, HEAD, optional 100-continue interim, under seeded segmentation; " +
+		Rule: "each case = a sequence of 1..6 exchanges over one keep-alive client connection to a scripted peer: request = method x URL (path/query alphabet) x header list x body mode (bytes, stream of known/unknown length, LimitedReader, urlencoded form, multipart with fields and files); response = fixed length, chunked with trailers, read-until-close, bodiless status, HEAD, optional 100-continue interim, under seeded segmentation; URLs with and without a fragment; Response.SkipBody set by the application on some GETs; on some connections the peer closes the idle connection between two exchanges without announcing it (the client retries on a new connection or reports the error) or goes silent once in the middle of a response body (one read times out: an error must be reported, never a shortened body); " +
 			"the captured request bytes are decoded by the harness's strict parser, by net/http.ReadRequest and by the hertz server rig and compared three-way with the abstract request; the protocol.Response (buffered or streamed) is compared with the abstract response; distinct = hash of the exchange descriptions; non-trivial = at least 2 exchanges on the connection or a streamed/multipart body or a chunked response",
 		Assumptions: []string{
 			"accepted normalisations: header-name canonicalisation, default User-Agent and Content-Type, Host derived from the URL, path normalisation by the client (targets with unsafe/relative path pieces are compared only between the three decoders, not with the literal input)",
@@ -83,6 +83,8 @@ type areq struct {
 	Body                []byte // expected body bytes (non-multipart)
 	Fields              map[string]string
 	Files               map[string]string // param -> content (file name = param+".txt")
+	Frag                string            // fragment of the URL the application gave (never part of a request)
+	SkipBody            bool              // the application sets Response.SkipBody before the call
 }
 
 type aresp struct {
@@ -169,6 +171,12 @@ func genReq(r *mon.Rand, i int, rawOnly bool) *areq {
 	if a.Method == "GET" || a.Method == "HEAD" {
 		a.BodyMode = "none"
 	}
+	if r.Chance(6) {
+		a.Frag = r.Str("frag", "sec-2", "a?b=c")
+	}
+	if a.Method == "GET" && r.Chance(8) {
+		a.SkipBody = true
+	}
 	switch a.BodyMode {
 	case "bytes", "stream-known", "stream-unknown", "stream-limited":
 		a.Body = wire.PosBody(i, size)
@@ -195,6 +203,9 @@ func (a *areq) build(r *mon.Rand, req *protocol.Request) {
 	u := "http://peer" + a.Path
 	if a.Query != "" {
 		u += "?" + a.Query
+	}
+	if a.Frag != "" {
+		u += "#" + a.Frag
 	}
 	req.SetRequestURI(u)
 	req.Header.SetMethod(a.Method)
@@ -308,7 +319,16 @@ func trunc(s string, n int) string {
 	return s
 }
 
+// hangs counts calls that did not return (each costs the full watchdog time); after a few
+// of them — every one already reported as a violation — this worker stops driving
+// further connections instead of waiting out the watchdog thousands of times
+var hangs int
+
 func oneConn(w *mon.W, c *mon.Case, getC func(ccfg) *cengine, srv *sview) {
+	if hangs >= 3 {
+		w.Count("connections_not_driven_after_repeated_hangs", 1)
+		return
+	}
 	r := c.R
 	cf := ccfg{stream: r.Bool(), noNorm: r.Chance(8), noPathNorm: r.Chance(8), proxy: r.Chance(8), limit: r.Chance(4)}
 	ce := getC(cf)
@@ -326,6 +346,26 @@ func oneConn(w *mon.W, c *mon.Case, getC func(ccfg) *cengine, srv *sview) {
 		frags = append(frags, fr)
 	}
 	closeAfter := resps[n-1].Mode == "close"
+	// disturbances of the first connection: the peer closes it while it is idle (after
+	// `die` exchanges, without having announced it), or goes silent once in the middle of
+	// a response body (one read of the client times out)
+	die, stallResp, stallAfter := 0, -1, 0
+	switch r.Intn(8) {
+	case 0, 1:
+		if n >= 2 {
+			die = 1 + r.Intn(n-1)
+		}
+	case 2:
+		k := r.Intn(n)
+		if p := resps[k]; p.Mode != "none" && len(p.Body) >= 2 && reqs[k].Method != "HEAD" && !reqs[k].SkipBody {
+			stallResp = k
+			wl := 0
+			for _, f := range frags[k] {
+				wl += len(f)
+			}
+			stallAfter = wl - 1 - r.Intn(len(p.Body)-1)
+		}
+	}
 	var conns []*crig.SeqConn
 	ce.d.Buf = r.Int(4096, 100, 8192)
 	ce.d.Next = func() (net.Conn, error) {
@@ -339,6 +379,12 @@ func oneConn(w *mon.W, c *mon.Case, getC func(ccfg) *cengine, srv *sview) {
 			done = len(frags)
 		}
 		sc := crig.NewSeqConn(frags[done:], closeAfter)
+		if len(conns) == 0 {
+			sc.DieAfter = die
+			if stallResp >= 0 {
+				sc.SetStall(stallResp, stallAfter)
+			}
+		}
 		conns = append(conns, sc)
 		return sc, nil
 	}
@@ -346,7 +392,13 @@ func oneConn(w *mon.W, c *mon.Case, getC func(ccfg) *cengine, srv *sview) {
 		var ds []string
 		for i := range reqs {
 			a, p := reqs[i], resps[i]
-			ds = append(ds, fmt.Sprintf("%s %s?%s hdrs=%q body=%s/%d -> %d %s/%d interim=%v trailer=%v over=%v", a.Method, a.Path, a.Query, a.Hdrs, a.BodyMode, len(a.Body), p.Status, p.Mode, len(p.Body), p.Interim, p.Trailer, p.Over))
+			ds = append(ds, fmt.Sprintf("%s %s?%s#%s hdrs=%q body=%s/%d skipbody=%v -> %d %s/%d interim=%v trailer=%v over=%v", a.Method, a.Path, a.Query, a.Frag, a.Hdrs, a.BodyMode, len(a.Body), a.SkipBody, p.Status, p.Mode, len(p.Body), p.Interim, p.Trailer, p.Over))
+		}
+		if die > 0 {
+			ds = append(ds, fmt.Sprintf("(the peer closes the idle connection after exchange %d)", die-1))
+		}
+		if stallResp >= 0 {
+			ds = append(ds, fmt.Sprintf("(the peer goes silent once after %d bytes of response %d)", stallAfter, stallResp))
 		}
 		return ds
 	}
@@ -355,15 +407,21 @@ func oneConn(w *mon.W, c *mon.Case, getC func(ccfg) *cengine, srv *sview) {
 	}
 	defer ce.hc.CloseIdleConnections()
 	nontrivial := n >= 2
+	firstConnOnly, dieSeen := false, false
 	for i := 0; i < n; i++ {
 		a, p := reqs[i], resps[i]
 		req := protocol.AcquireRequest()
 		a.build(r, req)
-		o := crig.Do(ce.hc, req, 20*time.Second)
+		var prep func(*protocol.Response)
+		if a.SkipBody {
+			prep = func(resp *protocol.Response) { resp.SkipBody = true }
+		}
+		o := crig.DoWith(ce.hc, req, 20*time.Second, prep)
 		protocol.ReleaseRequest(req)
 		w.Count("exchanges", 1)
 		tag := fmt.Sprintf("exchange %d of %d [%s] config %+v", i, n, descr()[i], cf)
 		if o.Hang {
+			hangs++
 			c.Violate("hang", "%s: Do did not return\n%s", tag, trunc(o.Stack, 2500))
 			return
 		}
@@ -371,7 +429,28 @@ func oneConn(w *mon.W, c *mon.Case, getC func(ccfg) *cengine, srv *sview) {
 			c.Violate(mon.PanicKey(o.Stack), "%s: panic %v\n%s", tag, o.Panic, trunc(o.Stack, 2000))
 			return
 		}
-		if p.Over && !cf.stream {
+		dieNow := die > 0 && !dieSeen && len(conns) > 0 && conns[0].LostLen() > 0
+		if dieNow {
+			dieSeen = true
+		}
+		if o.Err != nil && dieNow {
+			// the first request on the connection the peer has closed: the client may give
+			// up (it decides what is safe to send again); the sequence ends here
+			w.Count("idle_close_reported_as_error", 1)
+			n = i
+			firstConnOnly = true
+			break
+		}
+		if stallResp == i && len(conns) == 1 && (o.Err != nil || o.BodyErr != nil) {
+			// the silence was reported (the request itself arrived: it is still decoded)
+			w.Count("silence_reported_as_error", 1)
+			n = i + 1
+			break
+		}
+		if dieNow {
+			w.Count("idle_close_retried", 1)
+		}
+		if p.Over && !cf.stream && !a.SkipBody {
 			if !errors.Is(o.Err, errs.ErrBodyTooLarge) {
 				c.Violate("body-limit", "%s: response body of %d bytes exceeds MaxResponseBodySize %d but Do returned err=%v with %d body bytes", tag, len(p.Body), respLimit, o.Err, len(o.Body))
 				return
@@ -389,7 +468,7 @@ func oneConn(w *mon.W, c *mon.Case, getC func(ccfg) *cengine, srv *sview) {
 			return
 		}
 		// ---- response intact
-		if msg := compareResp(o, p, a.Method, cf); msg != "" {
+		if msg := compareResp(o, p, a, cf); msg != "" {
 			c.Violate("response-mismatch", "%s: %s", tag, msg)
 			return
 		}
@@ -400,7 +479,12 @@ func oneConn(w *mon.W, c *mon.Case, getC func(ccfg) *cengine, srv *sview) {
 	}
 	// ---- requests intact: decode everything the peer(s) received
 	var all []byte
-	for _, sc := range conns {
+	for k, sc := range conns {
+		if firstConnOnly && k > 0 {
+			// (an attempt on a further connection that also ended in an error: not a
+			// completed call)
+			break
+		}
 		all = append(all, sc.Written()...)
 	}
 	if len(conns) >= 1 && len(conns[0].Marks) >= 2 {
@@ -446,7 +530,7 @@ func oneConn(w *mon.W, c *mon.Case, getC func(ccfg) *cengine, srv *sview) {
 		c.Violate("request-hertz-server", "the hertz server decodes %d requests from the client's bytes, want %d; output %q", len(views), n, trunc(string(res.Out), 200))
 		return
 	}
-	for i, a := range reqs {
+	for i, a := range reqs[:n] {
 		if msg := compareReq(a, msgs[i], hreqs[i], hbodies[i], views[i], cf); msg != "" {
 			c.Violate("request-mismatch", "request %d [%s] config %+v: %s", i, descr()[i], cf, msg)
 			return
@@ -462,12 +546,12 @@ func oneConn(w *mon.W, c *mon.Case, getC func(ccfg) *cengine, srv *sview) {
 	}
 }
 
-func compareResp(o *crig.Outcome, p *aresp, method string, cf ccfg) string {
+func compareResp(o *crig.Outcome, p *aresp, a *areq, cf ccfg) string {
 	if o.Status != p.Status {
 		return fmt.Sprintf("status %d want %d", o.Status, p.Status)
 	}
 	want := p.Body
-	if p.Mode == "none" {
+	if p.Mode == "none" || a.SkipBody {
 		want = nil
 	}
 	if o.BodyErr != nil {
@@ -505,7 +589,7 @@ func compareResp(o *crig.Outcome, p *aresp, method string, cf ccfg) string {
 			return fmt.Sprintf("response has an extra header %s = %q", k, got[k])
 		}
 	}
-	if p.Trailer {
+	if p.Trailer && !a.SkipBody {
 		// the trailer arrives as "x-tr-lower": a normalising client hands it out as
 		// X-Tr-Lower, one with DisableHeaderNamesNormalizing exactly as sent
 		wantName := "X-Tr-Lower"
